@@ -73,6 +73,9 @@ impl Prop for Forwarding {
         if t.chance(1, 4) {
             cfg.packed_den = 2;
         }
+        // bases of extern type too (they bring no functions, but the conversions to them are due)
+        cfg.extern_bases = true;
+        cfg.externs = true;
         let (prog, _, _) = gen_prog(t, cfg);
         Case { prog, seed: t.u64() }
     }
@@ -122,6 +125,7 @@ impl Prop for SurfacePresence {
         cfg.enums = false;
         cfg.ext_vals = false;
         cfg.alias_types = 4;
+        cfg.extern_bases = true;
         let (prog, _, _) = gen_prog(t, cfg);
         crate::checks::l2common::Case { prog, w }
     }
